@@ -98,6 +98,20 @@ func main() {
 		for _, n := range res.Notes {
 			fmt.Println("note:", n)
 		}
+	case "aff":
+		m, err := Load(LoadOpts{RepoDir: *repo})
+		if err != nil {
+			fmt.Fprintln(os.Stderr, err)
+			os.Exit(1)
+		}
+		for _, a := range fs.Args() {
+			parts := strings.Split(a, ":")
+			recv := ""
+			if len(parts) == 3 {
+				recv = parts[1]
+			}
+			affDump(m, parts[0], recv, parts[len(parts)-1])
+		}
 	case "manifest":
 		if err := writeManifest(*verif); err != nil {
 			fmt.Fprintln(os.Stderr, err)
